@@ -173,17 +173,19 @@ Print Assumptions C16_number_items_distinct.
 (* [run] is [run_t] on decks whose cells are all converted and carry no TRCL,
    so the statements about [run] above are statements about [run_t] *)
 Theorem C16_run_t_plain : forall (cfg : config) (cards : list scard) (cs : list (N * list Z)),
+  (forall c z, In c cs -> In z (snd c) -> (Z.abs_N z < 1000)%N) ->
   run_t cfg cards (map plain cs) = run cfg cards (map one_part cs).
 Proof. exact run_t_plain. Qed.
 Print Assumptions C16_run_t_plain.
 
-(* the surface dictionary after the TRCL loop: the parsed cards, then the
-   copies; all keys distinct; every copy carries the flag (and part count) of
-   a parsed card *)
+(* the surface dictionary once every copy is made: the parsed cards, then the
+   implicit surfaces 1000 * cell + surface, then the copies made for the
+   literals of cells with TRCL; all keys distinct; every addition carries the
+   flag (and part count) of a parsed card *)
 Theorem C16_expanded_table :
   forall (t : table) (cells : list (bool * cell)) (t' : table) (cs : list tcell),
   NoDup (map fst t) ->
-  apply_trcls cs t (N.succ (max_key t)) = Ok (cells, t') ->
+  expand_table cs t = Ok (cells, t') ->
   NoDup (map fst t') /\
   (forall k e, In (k, e) t -> In (k, e) t') /\
   (forall k e, In (k, e) t' -> inherits t e).
@@ -199,7 +201,7 @@ Theorem C16_bc_designates_present_same_locus_trcl :
          (surfs : list (N * N)) (bcs : list (kind * N)) (k : N) (e : entry),
   skip_bc cfg = false ->
   parse_cards cards [] = Ok t ->
-  apply_trcls tcells t (N.succ (max_key t)) = Ok (cells, t') ->
+  expand_table tcells t = Ok (cells, t') ->
   run_t cfg cards tcells = Ok (surfs, bcs) ->
   In (k, e) t' -> (e_flag e = "*" \/ e_flag e = "+") ->
   (exists c, In c (converted cells) /\
@@ -216,7 +218,7 @@ Theorem C16_bc_entries_designate_written_trcl :
          (surfs : list (N * N)) (bcs : list (kind * N)),
   skip_bc cfg = false ->
   parse_cards cards [] = Ok t ->
-  apply_trcls tcells t (N.succ (max_key t)) = Ok (cells, t') ->
+  expand_table tcells t = Ok (cells, t') ->
   run_t cfg cards tcells = Ok (surfs, bcs) ->
   NoDup (map snd bcs) /\
   forall kd k', In (kd, k') bcs ->
@@ -232,7 +234,7 @@ Theorem C16_conflicting_flags_rejected_trcl :
          (k1 : N) (e1 : entry) (k2 : N) (e2 : entry),
   skip_bc cfg = false ->
   parse_cards cards [] = Ok t -> proper t ->
-  apply_trcls tcells t (N.succ (max_key t)) = Ok (cells, t') ->
+  expand_table tcells t = Ok (cells, t') ->
   geometry (negb (skip_dedup cfg)) t' (converted cells) = Ok surfs ->
   In (k1, e1) t' -> e_flag e1 = "*" -> In (k2, e2) t' -> e_flag e2 = "+" ->
   rep (negb (skip_dedup cfg)) (number_items t') k1 =
@@ -251,7 +253,7 @@ Theorem C16_trcl_copy_in_table :
   In c tcells -> tc_trcl c = true -> In l (tc_lits c) ->
   exists t cells t' e k',
     parse_cards cards [] = Ok t /\
-    apply_trcls tcells t (N.succ (max_key t)) = Ok (cells, t') /\
+    expand_table tcells t = Ok (cells, t') /\
     dict_get (Z.abs_N (l_z l)) t' = Some e /\
     In (k', mkE (e_flag e) (e_mcnp e) (l_cls l) (l_aux l) (l_sides l)) t'.
 Proof. exact trcl_copy_in_table. Qed.
@@ -263,7 +265,7 @@ Theorem C16_bc_designates_keys_trcl :
          (surfs : list (N * N)) (bcs : list (kind * N)) (kd : kind) (k' : N),
   skip_bc cfg = false ->
   parse_cards cards [] = Ok t ->
-  apply_trcls tcells t (N.succ (max_key t)) = Ok (cells, t') ->
+  expand_table tcells t = Ok (cells, t') ->
   run_t cfg cards tcells = Ok (surfs, bcs) -> In (kd, k') bcs ->
   In k' (map fst t') /\ (k' <= max_key t')%N.
 Proof. exact bc_designates_keys_trcl. Qed.
@@ -338,7 +340,7 @@ Qed.
 Example C16_example_trcl :
   exists t cells t' e,
     parse_cards w_trcl_cards [] = Ok t /\
-    apply_trcls w_trcl_cells t (N.succ (max_key t)) = Ok (cells, t') /\
+    expand_table w_trcl_cells t = Ok (cells, t') /\
     run_t (mkCfg false false) w_trcl_cards w_trcl_cells =
       Ok ([(4, 9); (6, 15); (7, 8)]%N, [(Reflection, 7%N)]) /\
     In (7%N, e) t' /\ e_flag e = "*" /\ e_first e = 8%N /\
@@ -428,4 +430,24 @@ Proof.
   - eexists. vm_compute. reflexivity.
   - exists [(-7)%Z; 3%Z; (-9)%Z], (-7)%Z. split; [left; reflexivity|].
     split; [left; reflexivity|]. split; [discriminate|reflexivity].
+Qed.
+
+(* surface numbers >= 1000: *7 PX 0 (class 7); cell 2 has TRCL=(1 0 0) and does
+   not name 7; cell 3 (no TRCL) names 2007 = surface 7 as moved by the TRCL of
+   cell 2 (PX 1: class 8).  The implicit surface inherits the flag: its entry
+   is on SURF 2007; the card 7 itself bounds nothing and has no entry *)
+Example C16_example_implicit :
+  let cards := [mkS "1" 1 5 [] []; mkS "*7" 1 7 [] []; mkS "4" 1 9 [] []] in
+  let tcells := [mkC 2 true true [mkL (-1) 15 [] []] [(7%N, mkD 8 [] [])];
+                 mkC 3 true false [mkL 2007 0 [] []; mkL (-4) 0 [] []] []] in
+  exists t cells t' e,
+    parse_cards cards [] = Ok t /\ expand_table tcells t = Ok (cells, t') /\
+    In (2007%N, e) t' /\ e_flag e = "*" /\ e_first e = 8%N /\
+    run_t (mkCfg false false) cards tcells =
+      Ok ([(4, 9); (2007, 8); (2009, 15)]%N, [(Reflection, 2007%N)]).
+Proof.
+  cbv zeta. eexists. eexists. eexists. eexists.
+  split; [vm_compute; reflexivity|]. split; [vm_compute; reflexivity|].
+  split; [do 3 right; left; reflexivity|]. split; [reflexivity|]. split; [reflexivity|].
+  vm_compute. reflexivity.
 Qed.
